@@ -3,8 +3,10 @@ import St4sd.Model.Ctrl
 /-! Model driver for properties C01 and C02 (shared model `St4sd.Ctrl`).
 
 request : {"comps":[{stage,preds,isRepeat,isAgg,isRepl,shutdownOn,restartOn,maxRestarts,script}],
-           "order":[..], "lastStage":k, "ops":[["sched"]|["exit",c]|["fin",c]|["pm",c]|["kill"]|["tick",c]]}
-answer  : {"snaps":[state after every op], "stageDone", "quiescent", "verdict", "log", "spec", "own"} -/
+           "order":[..], "lastStage":k, "cont":[stages with continue-on-error],
+           "ops":[["sched"]|["exit",c]|["fin",c]|["pm",c]|["kill"]|["tick",c]|["next"]]}
+answer  : {"snaps":[state after every op], "stageDone", "quiescent", "canAdvance", "verdict", "reports",
+           "log", "spec", "own"} -/
 open Lean Proto St4sd.Ctrl
 
 def reasonOf : String → Except String Reason
@@ -41,6 +43,7 @@ def parseOp (j : Json) : Except String Op := do
   | "fin" => return .fin (← arg)
   | "pm" => return .pm (← arg)
   | "tick" => return .tick (← arg)
+  | "next" => pure .next
   | _ => throw s!"unknown op {k}"
 
 def notifJson : Notif → Json
@@ -62,6 +65,7 @@ def snap (wf : Wf) (s : St) : Json :=
             let cs := s.comp c
             jarr [jstr (stateName cs), jbool (s.done c), jbool cs.staged, jnat cs.launches, jbool cs.finishCalled])),
         ("stop", jbool s.stop),
+        ("stage", jnat s.cur),
         ("pending", jarr ((sortNotifs s.pending).map notifJson))]
 
 def handle (j : Json) : Except String Json := do
@@ -69,18 +73,25 @@ def handle (j : Json) : Except String Json := do
   let order ← getNatList j "order"
   let lastStage ← getNat j "lastStage"
   let ops ← (← getArr j "ops").mapM parseOp
-  let wf : Wf := { n := cds.length, cdef := fun i => cds.getD i {}, order := order, lastStage := lastStage }
-  let (sfin, snapsRev) := ops.foldl (fun (acc : St × List Json) op =>
-      let s' := step wf acc.1 op
-      (s', snap wf s' :: acc.2)) (init, [])
+  let cont ← getNatList j "cont"
+  let wf : Wf := { n := cds.length, cdef := fun i => cds.getD i {}, order := order, lastStage := lastStage,
+                   contOnErr := fun k => cont.contains k }
+  let (afin, snapsRev) := ops.foldl (fun (acc : (St × Reports) × List Json) op =>
+      let a' := stepR wf acc.1 op
+      (a', snap wf a'.1 :: acc.2)) ((init, []), [])
+  let sfin := afin.1
+  let verdictName (v : Verdict) : String :=
+    match v with
+    | .ok => "ok" | .jobFailure => "UnexpectedJobFailureError"
+    | .noFinishedLeaf => "FinalStageNoFinishedLeafComponents"
   let viewJson (pv : Nat × View) : Json :=
     jarr [jnat pv.1, jopt (fun f => jstr (fin3Name f)) pv.2.state, jbool pv.2.staged]
   return jobj [("snaps", jarr snapsRev.reverse),
                ("stageDone", jbool (stageDone wf sfin)),
                ("quiescent", jbool (quiescent wf sfin)),
-               ("verdict", jstr (match verdict wf sfin with
-                                 | .ok => "ok" | .jobFailure => "UnexpectedJobFailureError"
-                                 | .noFinishedLeaf => "FinalStageNoFinishedLeafComponents")),
+               ("canAdvance", jbool (canAdvance wf sfin)),
+               ("verdict", jstr (verdictName (verdict wf sfin))),
+               ("reports", jarr (afin.2.map fun e => jarr [jnat e.1, jstr (verdictName e.2)])),
                ("log", jarr (sfin.log.map fun e => jarr [jnat e.1, jarr (e.2.map viewJson)])),
                ("spec", jarr ((comps wf).map fun c => jstr (fin3Name (spec wf c)))),
                ("own", jarr ((comps wf).map fun c => jstr (fin3Name (own wf c))))]
